@@ -122,6 +122,6 @@ package time
 //@   uses umul_exactl(-1, tzh*60*60 + tzm*60)
 //@   loop 1 invariant n >= 21 && 0 <= iterpos() && iterpos() <= n - 20 && (forall k int :: 20 <= k && k < 20 + iterpos() ==> isd(in, k))
 //@   loop 1 invariant i == (iterpos() == 0 ? 0 : iterpos() - 1)
-//@   loop 1 invariant mult == p10(9 - min9(iterpos())) && val == dv(in, 20, min9(iterpos()))
+//@   loop 1 invariant mult == p10(9 - min9(iterpos())) && val == dv(in, 20, min9(iterpos())) && 0 <= val && val < p10(min9(iterpos()))
 //@   loop 1 uses dv_unfold(in, 20, min9(iterpos()))
 //@   loop 1 decreases (n - 20) - iterpos()
